@@ -628,6 +628,8 @@ def gen_random_history(rng, names):
         if rng.random() < 0.35:
             total = nw * (nburn + nrun + (0 if cont else 1))
             crash = rng.randint(1, total)
+        if not cont and i > 0 and rng.random() < 0.5:
+            nw = rng.choice([8, 9, 10, 12, 16])       # a fresh run may use another ensemble size than the store has
         ops.append(mk_op(cont, nw, nburn, nrun, mean, sigma, rng.randrange(2 ** 31), crash))
     return name, {"backend": backend, "ops": ops}
 
@@ -650,6 +652,12 @@ def fixed_histories(rng):
     out.append(("flcdm2", {"backend": "mem", "ops": [mk_op(False, 8, 2, 4, m, sg, 41, crash=20), mk_op(True, 8, 1, 1, m, sg, 42)]}))
     out.append(("flcdm2", {"backend": "mem", "ops": [mk_op(False, 8, 2, 4, m, sg, 41, crash=20), mk_op(True, 8, 2, 3, m, sg, 43)]}))
     out.append(("flcdm2", {"backend": "hdf", "ops": [mk_op(False, 8, 2, 4, m, sg, 41, crash=20), mk_op(True, 8, 1, 1, m, sg, 42)]}))
+    # stopped before the first stored step (store initialised, empty), then a FRESH run with another walker count:
+    # "a run that does not ask to continue starts from an emptied store" whatever shape the store had
+    for bk in ("mem", "hdf"):
+        out.append(("flcdm2", {"backend": bk, "ops": [mk_op(False, 8, 1, 2, m, sg, 81, crash=5), mk_op(False, 10, 1, 2, m, sg, 82)]}))
+        out.append(("flcdm2", {"backend": bk, "ops": [mk_op(False, 12, 0, 2, m, sg, 83, crash=12), mk_op(False, 8, 1, 1, m, sg, 84),
+                                                     mk_op(True, 8, 0, 2, m, sg, 85)]}))
     # no backend keyword at all
     out.append(("flcdm3", {"backend": "none", "ops": [mk_op(False, 8, 1, 2, CFGS["flcdm3"]["center"], CFGS["flcdm3"]["width"], 51)]}))
     # every block of the cosmology that is still sampled must be followed by the likelihood: h0 and om fixed, w / ok free
